@@ -133,18 +133,21 @@ def run(pid, tier):
                 events, bad, tr = core.trace_validate("Trace_GitRepo", path, "c03-git", marker=True)
             finally:
                 core.TRACE_CFG = saved
-            pairs += sum(1 for e in events if e["k"] == "flowpair")
+            pairs += sum(1 for e in events if e["k"] in ("flowpair", "flowclean"))
             states += tr["distinct"]
             trans += tr["states"]
             for i, ev in bad:
                 if not ev.get("_reason", "").startswith("flow-"):
                     continue
                 tbad += 1
+                if ev["k"] == "flowclean":
+                    v.add([dict(key="C03:" + ev["_reason"], line=i, trace=path, semver=core.cp_text(ev["sv"]), pep440=core.cp_text(ev["pep"]))])
+                    continue
                 v.add([dict(key="C03:" + ev["_reason"], line=i, trace=path, branch=ev["branch"], base_tag=core.cp_text(ev["tag"]),
                             before=core.cp_text(ev["sv0"]), after=core.cp_text(ev["sv1"]),
                             pep_before=core.cp_text(ev["pep0"]), pep_after=core.cp_text(ev["pep1"]))])
         tev += pairs
-        core.log("  %d before/after-commit flow pairs along real git histories judged" % pairs)
+        core.log("  %d before/after-commit flow pairs and clean-at-tag flow outputs along real git histories judged" % pairs)
     cov = dict(states=states, transitions=trans, traces_validated_against_impl=rep["evaluations"] + tev,
                samples=rep["samples"][:4], evaluations=rep["evaluations"] + tev, distinct_nontrivial=rep["nontrivial"],
                rule="Gen: %d tags x %d branch names x distance {unset,0,1,3} x {-, --dirty, --no-dirty, --clean} x --post {-,5} x "
